@@ -94,6 +94,29 @@ def subclass_cases(nprobes, rng):
     return out
 
 
+def real_float_cases(rng):
+    import d42
+    from . import deep
+    s_abs = {"t": "float", "value": [], "min": [], "max": [], "precision": []}
+    v_abs = {"k": "float", "q": 0, "sp": "fin"}
+    out = []
+    receivers = []
+    for v, p in deep.TIE_VALUES:
+        receivers.append((d42.schema.float.precision(p), v))
+        receivers.append((d42.schema.dict({"x": d42.schema.float.precision(p)}), {"x": v}))
+    for which, b, p in deep.TIE_BOUNDS:
+        sch = getattr(d42.schema.float, which)(b).precision(p)
+        for v in (b, b + 10.0 ** -p / 3, b - 10.0 ** -p / 3, round(b, p), b + 0.0002):
+            receivers.append((sch, v))
+    for real, v_real in receivers:
+        ev = observe(real, s_abs, v_abs, v_real, 0, rng)
+        ev["rep"], ev["r"], ev["probes"], ev["model"] = False, [], [], False
+        for g in ev["gens"]:
+            g["rep"], g["w"] = False, []
+        out.append(ev)
+    return out
+
+
 def run(chk, prop):
     core.setup_repo_path()
     quick = chk.tier == "quick"
@@ -151,6 +174,12 @@ def run(chk, prop):
         ev["id"] = len(events) + 1
         events.append(ev)
         chk.count("subclass_member_cases")
+    # code -> spec only: real binary floats (decimal ties, bounds off the precision grid) pinned by
+    # substitution; the abstract schema and value are stand-ins (a plain float)
+    for ev in real_float_cases(chk.rng):
+        ev["id"] = len(events) + 1
+        events.append(ev)
+        chk.count("real_float_cases")
     chk.require(len(events) >= 5000, "fewer than 5000 substitutions replayed (%d)" % len(events))
     chk.require(chk.counts.get("substituted", 0) >= 1500 and chk.counts.get("refused", 0) >= 1000,
                 "outcome mix too thin: %r" % chk.counts)
